@@ -486,3 +486,61 @@ def mutate_structural(rng, r):
     elif kind == 'header':
         b = bytearray(out); b[rng.randrange(0, 17)] ^= rng.choice([1, 0x80, 0xff]); out = bytes(b)
     return out, desc
+
+
+# ---------------------------------------------------------------------------------------------
+# irregular renderings inside the class the Coq theorem covers (Proofs/Irregular2.v wf_irreg2): unknown events
+# interleaved anywhere before Game End with their table entries appended, junk after a single Game End, adjacent
+# exchanges of independent frame-interior events (>= 2.2).  Returns (bytes, extras, events, junk) so that the model can
+# rebuild the stream (emit_irr) and decide the predicate (wf_irreg2_b).
+
+def _slot_key(e):
+    p = e[1][1:]
+    return None if len(p) < 6 else (p[4], p[5] != 0)
+
+
+def independent(e1, e2):
+    ch = ('pre', 'post')
+    if (e1[0] == 'item' and e2[0] in ch) or (e1[0] in ch and e2[0] == 'item'):
+        return True
+    if e1[0] in ch and e2[0] in ch:
+        k1, k2 = _slot_key(e1), _slot_key(e2)
+        return k1 is not None and k2 is not None and k1 != k2
+    return False
+
+
+def irregular_in_class(rng, r, swaps=None, density=0.25):
+    v = r.ver
+    evs = events_of(r)
+    body = [e for e in evs if e[0] != 'end']
+    ends = [e for e in evs if e[0] == 'end']
+    nsw = 0
+    if gte(v, 2, 2) and len(body) > 1:
+        for _ in range(swaps if swaps is not None else rng.choice([0, 3, 20, 200])):
+            i = rng.randrange(len(body) - 1)
+            if independent(body[i], body[i + 1]):
+                body[i], body[i + 1] = body[i + 1], body[i]; nsw += 1
+    codes = rng.sample(UNKNOWN_CODES, rng.randrange(0, 4))
+    sizes = {c: rng.choice([1, 2, 7, 64, 300]) for c in codes}
+    extras = [(c, sizes[c]) for c in codes]
+    out = []
+    def unk():
+        c = rng.choice(codes)
+        return ('unknown', bytes([c]) + rb(rng, sizes[c]))
+    for e in body:
+        while codes and rng.random() < density: out.append(unk())
+        out.append(e)
+    while codes and rng.random() < density: out.append(unk())
+    junk = b''
+    if r.end == 'single' and rng.random() < 0.5:
+        junk = rb(rng, rng.choice([1, 2, 3, 7, 40]))
+        if len(junk) == 1 + gend_size(v) and junk[0] == 0x39:
+            junk = bytes([0x00]) + junk[1:]
+    b = assemble(r, out + ends, table=payload_table(r) + extras, tail=junk)
+    return b, extras, [(e[1][0], e[1][1:]) for e in out], junk, nsw
+
+
+def irr_case(r, extras, events, junk, opts='-'):
+    """fields of the model runner's `emitirr` mode"""
+    return to_case(r, opts) + [','.join('%d:%d' % cs for cs in extras) or '-',
+                               ','.join('%d:%s' % (c, hx(p)) for c, p in events) or '-', hx(junk)]
